@@ -239,6 +239,14 @@ fn main() {
             let c = match rp["engine"].as_str().unwrap_or("") {
                 "seq" => seq::replay(rp),
                 "e2" => e2::replay(rp),
+                "e2-stress" => {
+                    let (fs, n) = e2::stress_c02();
+                    println!("frames {}", n);
+                    for f in &fs {
+                        println!("finding {}: {}", f.kind, f.msg);
+                    }
+                    if fs.is_empty() { 0 } else { 1 }
+                }
                 "e4" => e4::replay(rp),
                 "e6" => e6::replay(rp),
                 "c10" => {
